@@ -3,7 +3,8 @@
 Template syntax (lines starting with //@ inside a .tmpl.rs file):
 
   //@extract file=<rel path> fn=<name> [within="<impl header substring>"] [ret=<name>] [as=<new fn name>]
-  //@  rewrite /<regex>/ => /<replacement>/          (applied to the extracted text, in order)
+  //@  rewrite /<regex>/ => /<replacement>/          (applied to the extracted text, in order; `rewrite?` = optional: applied
+  //@                                                 if it matches, e.g. a type annotation Verus needs for one spelling only)
   //@  spec <verus clause line>                      (requires / ensures / decreases lines, copied verbatim
   //@                                                 between the signature and the body)
   //@  attr <verus attribute>                       (placed in front of the function, e.g. #[verifier::exec_allows_no_decreases_clause]
@@ -111,10 +112,10 @@ def expand_template(scratch, tmpl_path):
                 l = lines[i].strip()
                 assert l.startswith("//@"), "bad template line %d in %s" % (i + 1, tmpl_path)
                 l = l[3:].strip()
-                if l.startswith("rewrite "):
-                    m = re.match(r"rewrite /(.*)/ => /(.*)/$", l)
+                if l.startswith("rewrite ") or l.startswith("rewrite? "):
+                    m = re.match(r"rewrite\?? /(.*)/ => /(.*)/$", l)
                     assert m, "bad rewrite line %d" % (i + 1)
-                    rewrites.append((m.group(1), m.group(2)))
+                    rewrites.append((m.group(1), m.group(2), l.startswith("rewrite? ")))
                 elif l.startswith("spec "):
                     specs.append(l[5:])
                 elif l.startswith("attr "):
@@ -137,9 +138,9 @@ def expand_template(scratch, tmpl_path):
             text, line_no = fn_text(scratch, args["file"], args["fn"], args.get("within"))
             for feat in strip:
                 text = strip_cfg(text, feat)
-            for rx, rep in rewrites:
+            for rx, rep, optional in rewrites:
                 text, n = re.subn(rx, rep, text)
-                if n == 0:
+                if n == 0 and not optional:
                     raise Undecided("extraction rewrite /%s/ no longer matches %s::%s (code shape changed)" % (rx, args["file"], args["fn"]))
             clean = _strip_comments_keep_layout(text)
             # split signature / body
